@@ -307,3 +307,17 @@ Definition c19_oom_pred (args : list val) : bool :=
       && match last_opt outcomes with Some (WStr s) => str_eqb s expected | _ => false end
   | _ => false
   end.
+
+(** args: was the host of the first URL accepted by build(host=)/with_host() (validated)?,
+    observation of the URL, observation of build(host = its decoded host): the decoded
+    host re-encodes to the same raw host.  Hosts that only the non-validating constructor
+    accepted may be rejected by build() (ValueError) - then there is nothing to compare. *)
+Definition c16_reencode_pred (args : list val) : bool :=
+  match args with
+  | [WBool validated; o; o2] =>
+      match o2 with
+      | WList _ => val_eqb (nthv i_raw_host o) (nthv i_raw_host o2)
+      | WErr ValueError => negb validated
+      | _ => false end
+  | _ => false
+  end.
